@@ -89,3 +89,4 @@ CFG['rule'] = CFG['rule'] + ' ' + 'Update requests of this profile name one poin
 
 CFG['rule'] = CFG['rule'] + ' ' + 'Every second hamming / jaccard history attaches a binary quantiser block with a threshold of its own (0.2, 0.75, -0.5, 1.5) -- unused for these metrics, bits are taken at 0.5 -- and its vectors take fractional values (0.25 .. 1.25) one time in three.'
 CFG['rule'] = CFG['rule'] + ' ' + 'A third of the histories keep the flat vector at the nested path nested.v (updates reach it through the parent key); the bit-metric indexes carry a binary quantiser block with a threshold of its own (not used).'
+CFG['rule'] = CFG['rule'] + ' ' + 'One scripted request in two sets the vector of a point and then removes it (the other half removes it and then sets it).'
